@@ -42,12 +42,15 @@ SECOND = [("collections", "OrderedDict"), ("verif_sink", "other"), ("builtins", 
 SHADOWMODS = ["collections", "importlib", "gzip", "datetime", "functools", "string"]
 
 
-def generate(ctx, profile, maxlen, *, simulate=None, depth=None, minstop=0, maxdepth=8, require=()):
-    cfg = GEN_CFG.replace("@MAXLEN@", str(maxlen)).replace("@MINSTOP@", str(minstop)).replace("@MAXDEPTH@", str(maxdepth))
+def generate(ctx, profile, maxlen, *, simulate=None, depth=None, minstop=0, maxdepth=8, require=(), reqmods=()):
+    def tlaset(xs):
+        return "{" + ", ".join('"%s"' % x for x in xs) + "}"
+    cfg = (GEN_CFG.replace("@MAXLEN@", str(maxlen)).replace("@MINSTOP@", str(minstop)).replace("@MAXDEPTH@", str(maxdepth))
+           .replace("@REQUIRE@", tlaset(require)).replace("@REQMODS@", tlaset(reqmods)))
     if simulate:   # walks: keep the cheap invariants only (all successors of every visited state are checked)
         for ln in ("PROPERTY Monotone\n", "INVARIANT Replayable\n", "INVARIANT HeapClosed\n", "INVARIANT ResultCanonical\n"):
             cfg = cfg.replace(ln, "")
-    r = tlc.run("MC_" + profile, cfg, workers=16 if not simulate else 4, simulate=simulate, depth=depth,
+    r = tlc.run("MC_" + profile, cfg, workers=6 if not simulate else 4, simulate=simulate, depth=depth,
                 seed=ctx.seed, timeout=3000, heap="12g")
     if not r["ok"]:
         raise MachineryError(f"TLC failed on generator MC_{profile}: {r['error'][:600]}")
@@ -91,10 +94,17 @@ def build_items(ctx, plan, per_shape=1, natural=0):
     """plan: list of generate() keyword dicts.  Returns trace items."""
     items = []
     vi = ctx.rng.randrange(len(VOCAB))
-    for g in plan:
+
+    def gen(g):
+        g = dict(g)
+        if g.pop("shadow", None):
+            g["reqmods"] = ("M1", "M2")
+        return generate(ctx, **g)
+    with cf.ThreadPoolExecutor(6) as ex:          # the generators are independent TLC runs
+        generated = list(ex.map(gen, plan))
+    for g, progs in zip(plan, generated):
         g = dict(g)
         shadow = g.pop("shadow", False)
-        progs = generate(ctx, **g)
         if shadow:      # both same-named globals must occur
             progs = [p for p in progs if {"M1", "M2"} <= {o.get("m") for o in p}]
         tag = g["profile"]
@@ -172,8 +182,11 @@ ASSUME = [
 
 def run_family(ctx, prop, clause_of, nontrivial, rule, want=("steps", "dec", "chk", "trace"), extra_items=()):
     """clause_of(verdict, record) -> None | clause string (a violation of `prop`)"""
+    import time as _t
     P = PLANS[ctx.tier]
+    t0 = _t.time()
     items = build_items(ctx, P["plan"], P["per_shape"], P["natural"])
+    t1 = _t.time()
     for it in extra_items:
         it = dict(it)
         it["id"] = len(items)
@@ -181,7 +194,9 @@ def run_family(ctx, prop, clause_of, nontrivial, rule, want=("steps", "dec", "ch
     for it in items:
         it["want"] = want
     records = rec_vm.record_many(items)
+    t2 = _t.time()
     verdicts = validate(ctx, records)
+    ctx.notes.append(f"phases: generate+instantiate {t1 - t0:.1f}s, record {t2 - t1:.1f}s, validate {_t.time() - t2:.1f}s")
     failures, mach, samples = [], [], []
     nontriv, outdom = set(), 0
     for rec in records:
